@@ -39,6 +39,18 @@ Definition sel_match (sel labels : list (string * string)) : bool :=
 Definition with_labels (r : srel) (l : list (string * string)) : srel :=
   mkSrel (sr_name r) (sr_version r) (sr_status r) l.
 
+(* util.go decodeRelease since 1478473: the third-party decoding (base64, gzip, JSON — [raw])
+   followed by `if rls.Info == nil { rls.Info = &rspb.Info{} }`.  The driver functions below
+   take ANY decoder; this is the one the drivers use. *)
+Definition norm_info (r : srel) : srel :=
+  match sr_status r with
+  | None => mkSrel (sr_name r) (sr_version r) (Some EmptyString) (sr_labels r)
+  | Some _ => r
+  end.
+
+Definition decode_release {B : Type} (raw : B -> option srel) (b : B) : option srel :=
+  option_map norm_info (raw b).
+
 Section Driver.
   Variable B : Type.
   Variable empty : B.                      (* what item.Data["release"] yields for a missing key or a nil map *)
